@@ -247,6 +247,7 @@ Proof.
     apply pool_set_tv; [exact G|]. apply pget_tv. exact G.
   - intro H. inversion H. subst. apply pool_set_tv; [exact G|]. apply pget_tv. exact G.
   - intro H. inversion H. subst. exact G.
+  - intro H. inversion H. subst. apply pool_set_tv; [exact G|]. cbn [repickle o_timing]. apply pget_tv. exact G.
 Qed.
 
 Fixpoint run_tv (ops : list wop) : Prop := match ops with [] => True | op :: rest => op_tv op /\ run_tv rest end.
